@@ -13,8 +13,8 @@ type ElectreIIIPreferenceFunc struct {
 }
 
 type ElectreIIIInputParams struct {
-	Criteria        ElectreCriteria                `json:"criteria"`
-	DistillationFun utils.LinearFunctionParameters `json:"distillationFun,omitempty"`
+	Criteria        ElectreCriteria                `json:"electreCriteria"`
+	DistillationFun utils.LinearFunctionParameters `json:"electreDistillation,omitempty"`
 }
 
 func (e *ElectreIIIPreferenceFunc) Identifier() string {
